@@ -24,6 +24,13 @@ def run(ctx):
     def wrapped(n):
         return f"ChargeConj({n})"
 
+    def is_pdg_name(n):
+        try:
+            PDG2EvtGenNameMap[n]
+            return True
+        except Exception:
+            return False
+
     # --- EvtGen names, exhaustively
     for n, pid in name2id.items():
         c = charge_conjugate_name(n)
@@ -84,6 +91,39 @@ def run(ctx):
                 res.violation("model differs on an unknown label", {"kind": "unknown", "name": n}, impl=c, model=ans, clause="model tie")
 
         batch.add(["conj", n], onu)
+    # --- the wrapped form of a name is itself a name without known conjugate: asked for after (or before) the name it wraps, with
+    # either naming, it is wrapped once more and never unwrapped (answers do not depend on what was asked earlier)
+    no_partner = [n for n in name2id if charge_conjugate_name(n) == wrapped(n)]
+    hist_names = ["Xfoo", "Zork2", "MyB", "K+K-"] + gen.name_pool(rng, 12, synthetic=1.0) + rng.sample(no_partner, min(8, len(no_partner)))
+    for j, n in enumerate(hist_names):
+        if n in name2id and n not in no_partner:
+            continue
+        for flag in (False, True):
+            w = wrapped(n)
+            order = [n, w, wrapped(w), n] if j % 2 == 0 else [w, n, wrapped(w), w]
+            got = [charge_conjugate_name(x, pdg_name=flag) for x in order]
+            want = [wrapped(x) for x in order]
+            if flag and is_pdg_name(n):
+                continue   # the spelling is also a PDG name: the PDG route answers (covered exhaustively above)
+            res.case()
+            res.count("wrapped_histories")
+            if got != want:
+                res.violation("a name without known conjugate is altered (un-wrapped) when its wrapped form was met before", {"kind": "wrapped-history", "calls": order, "pdg_name": flag},
+                              impl=got, model=want, clause="unknown names")
+        dm = DecayMode(0.25, [n, "pi+", "pi+", "K-"])
+        twice = dm.charge_conjugate().charge_conjugate().daughters.to_list()
+        want2 = sorted([wrapped(wrapped(n)), "pi+", "pi+", "K-"])
+        dd = DaughtersDict([n, wrapped(wrapped(n)), "pi-"]).charge_conjugate()
+        res.case()
+        if twice != want2 or len(dd) != 3:
+            res.violation("conjugating a mode with an unknown name twice / a final state holding a name and a wrapped name", {"kind": "wrapped-history", "name": n},
+                          impl=[twice, dd.to_list()], model=[want2, 3], clause="final states")
+
+        def onw(ans, n=n):
+            if ans is not None and (ans[0] != "ok" or ans[1] != wrapped(wrapped(n))):
+                res.violation("model differs on a wrapped name", {"kind": "unknown", "name": wrapped(n)}, impl=wrapped(wrapped(n)), model=ans, clause="model tie")
+
+        batch.add(["conj", wrapped(n)], onw)
     # --- final states and modes
     names = list(name2id)
     n_random = 500 if tier == "quick" else 6000
